@@ -86,6 +86,11 @@ def _vectors(r, S, scale, g, P, R, nvec):
             out.append(("shift+c", a + c))
         else:
             out.append(("int", np.round(r.normal(size=S) * 4) * scale))
+    # very large magnitudes of either sign (the property quantifies over ALL value vectors)
+    for sign, tag in ((-1.0, "huge-neg"), (1.0, "huge-pos")):
+        for expo in (10, 14):
+            out.append((tag, sign * (1.0 + np.abs(r.normal(size=S))) * 10.0 ** expo))
+    out.append(("huge-mixed", r.normal(size=S) * 1e12))
     if g < 1.0:
         try:
             out.append(("vstar", refmdp.vstar(P, R, g)[0]))
